@@ -271,6 +271,11 @@ class C16(Base):
             if r < 0.06:
                 segs.append("clr")
                 continue
+            if r < 0.14:
+                segs.append("pf")          # a prefetch between requests (several in a row now and then)
+                if rng.random() < 0.4:
+                    segs.append("pf")
+                continue
             api = rng.choice(["v", "vs", "vv", "vvs", "mm", "mms"])
             if api in ("v", "vv", "mm") and rng.random() < 0.15:
                 api = "x" + api                 # preceded by the same request polled once and dropped
@@ -352,6 +357,10 @@ class C16(Base):
         if len(obs) != len(ops):
             return "observation count %d != op count %d" % (len(obs), len(ops))
         for op, o in zip(ops, obs):
+            if op == "pf":
+                if o != "ok":
+                    return "prefetch answered %s (the source's prefetch hook is empty: nothing happens)" % o
+                continue
             if o == "bad-op" or op == "clr":
                 continue
             api, _, arg = op.partition(":")
